@@ -30,9 +30,16 @@ type FakeStore struct {
 	fired  int // number of injected failures so far
 	watch  func(key string, value []byte, deleted bool)
 	Calls  []string
+	// WriteConflicts: every Put BY THE IMPLEMENTATION that records a prefix which the store, at that moment,
+	// records for a different subscriber (one address, two subscribers in the authoritative table). Prefixes for
+	// which the harness itself injected a conflicting remote record (Tainted) are not counted.
+	WriteConflicts []string
+	Tainted        map[string]bool
 }
 
-func NewFakeStore() *FakeStore { return &FakeStore{data: map[string][]byte{}} }
+func NewFakeStore() *FakeStore {
+	return &FakeStore{data: map[string][]byte{}, Tainted: map[string]bool{}}
+}
 
 func (f *FakeStore) fail(call string) bool {
 	f.Calls = append(f.Calls, call)
@@ -63,6 +70,15 @@ func (f *FakeStore) Put(ctx context.Context, key string, value []byte) error {
 	defer f.mu.Unlock()
 	if f.fail("Put") {
 		return errInjected
+	}
+	var rec allocator.DistributedAllocation
+	if json.Unmarshal(value, &rec) == nil && rec.Prefix != "" && !f.Tainted[rec.Prefix] {
+		for k, v := range f.data {
+			var o allocator.DistributedAllocation
+			if k != key && json.Unmarshal(v, &o) == nil && o.PoolID == rec.PoolID && o.Prefix == rec.Prefix && o.SubscriberID != rec.SubscriberID {
+				f.WriteConflicts = append(f.WriteConflicts, fmt.Sprintf("%s written for %s while the store records it for %s", rec.Prefix, rec.SubscriberID, o.SubscriberID))
+			}
+		}
 	}
 	f.data[key] = value
 	return nil
@@ -136,6 +152,8 @@ type DistCfg struct {
 	Grace     int
 	Subs      []string
 	MaxFaults int
+	// ModeUnset: DistributedConfig.Mode left at its zero value (documented default: a session pool)
+	ModeUnset bool
 }
 
 type distSys struct {
@@ -152,6 +170,8 @@ func (s *distSys) boot() error {
 	mode := allocator.PoolModeSession
 	if s.c.Lease {
 		mode = allocator.PoolModeLease
+	} else if s.c.ModeUnset {
+		mode = ""
 	}
 	da, err := allocator.NewDistributedAllocator(allocator.DistributedConfig{PoolID: "p", BaseNetwork: s.c.Net, PrefixLen: 32, Mode: mode, EpochGrace: s.c.Grace}, s.st)
 	if err != nil {
@@ -379,8 +399,17 @@ func (s *distSys) Apply(op string) string {
 			ep = s.l.epoch
 		}
 		rec, _ := json.Marshal(allocator.DistributedAllocation{PoolID: "p", SubscriberID: a[0], Prefix: pfx(target), Epoch: ep})
+		if a[1] == "other" {
+			s.st.Tainted[pfx(target)] = true // the second writer itself created the conflict: not the node's doing
+		}
 		s.st.data[key] = rec
 		s.st.watch(key, rec, false)
+		// Session pools install "the allocation from the store" (documented): when another node announces an address
+		// nobody else holds here, the subscriber holds THAT address afterwards and is answered with it when it asks
+		// again. (Lease pools re-allocate on a remote record - the address they pick is C12's subject, not demanded here.)
+		if v, ok := s.get(a[0]); !s.c.Lease && a[1] != "other" && s.Cl.C01 && (!ok || v != target) {
+			s.V("stability", "RemotePut", "the store records %s for %s (announced by another node, held by nobody else here) but the node answers (%q,%v) for %s", target, a[0], v, ok, a[0])
+		}
 		s.resync(a[0])
 		return target
 	case "Restart":
@@ -437,6 +466,13 @@ func (s *distSys) Check() []explore.Viol {
 			}
 			return p.IP.String()
 		})
+	}
+	// session pools (no expiry: a stored record always has a live holder): the node must never write a record that gives
+	// an address to a second subscriber while the authoritative table still records it for another one
+	if !s.c.Lease && s.Cl.C01 {
+		for _, c := range s.st.WriteConflicts {
+			s.V("duplicate", "store.Put", "%s", c)
+		}
 	}
 	return s.Viols
 }
@@ -890,13 +926,22 @@ func storeSpecs(cl Clauses, thorough bool, subs []string, d, nd int) []Spec {
 		faults = 2
 	}
 	for _, c := range []DistCfg{
-		{"10.0.0.0/30", false, 0, subs, faults}, {"10.0.0.5/29", false, 0, subs, faults},
-		{"10.0.0.0/29", true, 1, subs, faults}, {"10.0.0.8/30", true, 1, subs, faults}, {"10.0.0.0/29", true, 2, subs[:2], faults},
+		{"10.0.0.0/30", false, 0, subs, faults, false}, {"10.0.0.5/29", false, 0, subs, faults, false},
+		{"10.0.0.0/29", true, 1, subs, faults, false}, {"10.0.0.8/30", true, 1, subs, faults, false}, {"10.0.0.0/29", true, 2, subs[:2], faults, false},
+		// every optional configuration field at its zero value must behave like its documented default:
+		// Mode "" = session pool, EpochGrace 0 = grace 1
+		{Net: "10.0.0.0/30", Subs: subs, MaxFaults: faults, ModeUnset: true}, {Net: "10.0.0.8/30", Lease: true, Grace: 0, Subs: subs[:2], MaxFaults: faults},
 	} {
 		c := c
 		mode := "session"
+		if c.ModeUnset {
+			mode = "mode-unset(session)"
+		}
 		if c.Lease {
 			mode = fmt.Sprintf("lease grace=%d", c.Grace)
+			if c.Grace == 0 {
+				mode = "lease grace=1(unset)"
+			}
 		}
 		out = append(out, Spec{Name: "allocator.DistributedAllocator", Config: fmt.Sprintf("%s %s faults<=%d", c.Net, mode, faults), Depth: d, NoDedup: 2,
 			New: func() explore.System { return NewDist(cl, c) }})
